@@ -18,7 +18,7 @@ import (
 func init() { register("C10", checkC10) }
 
 func checkC10(c *core.Ctx) {
-	c.Explainf("C10 (decided clauses, go/cfg path rules on parse.go and tokenize.go). R1: in ReadFile every path from a false result of tr.Next() to a return whose error is nil passes a call of tr.Err() whose result is returned — Next() is false without an error only at a clean EOF, so success implies the whole input was tokenized; expectNext/expectAnyOfNext test tr.Err() right after Next(). R2: a failed Next() invalidates the current token on every failing return, and UnNext() is only called while the current token is valid (typestate over each function of parse.go) — otherwise the previous token is delivered again (an unterminated union is accepted because the branch's '}' is taken for the union's). R3: every unreadByte() is dominated by a successful byte read whose error was tested; in Next() a reader failure in findFirst returns before unreadByte(). R4: the explicit panic of decodeIntegerType is fenced: its case constants cover every key of uintTypes and intTypes, the only names readEnum lets through. R5: no inner node of the token tree built by newTokenTree has a successor set whose first sorted label is the synthetic \"number\" (the recovery path indexes successors by that label's first byte). R6: every tokenizer function that reads the underlying reader records a failing read as an error and adds the end-of-input sentinel only for io.EOF. R7: a block comment token is long enough for readBlockComment's slice. R8: every index into a slice or string (and every slice-to-array conversion) in parse.go, parse_expr.go, eval_expr.go, tokenize.go and token_tree.go is proven in bounds by one of the enumerated idioms — a dominating `if len(x)… {return}`, an enclosing if/for condition, the arity of the expectNext call that produced the slice (expectNext's own contract is checked), a range over a same-length make, a counting fill, or, for a parameter, the same proof at every call site; token counts and token text are input-controlled, so an unproven index is an input that panics. R9: every non-range loop of the parser and tokenizer takes at least one token or byte from the input on balance on its cheapest cycle (consuming calls minus UnNext/unread calls, Bellman-Ford over the loop's sub-graph of the go/cfg graph, callee summaries over successful returns), or advances a counter its condition bounds; with a finite input and a reader that eventually reports EOF this bounds the iterations. NOT decided: termination as such (a reader that never ends, recursion depth); slice expressions x[a:b] other than those of R7; nil-map and nil-pointer panics.")
+	c.Explainf("C10 (decided clauses, go/cfg path rules on parse.go and tokenize.go). R1: in ReadFile every path from a false result of tr.Next() to a return whose error is nil passes a call of tr.Err() whose result is returned — Next() is false without an error only at a clean EOF, so success implies the whole input was tokenized; expectNext/expectAnyOfNext test tr.Err() right after Next(). R2: a failed Next() invalidates the current token on every failing return, and UnNext() is only called while the current token is valid (typestate over each function of parse.go) — otherwise the previous token is delivered again (an unterminated union is accepted because the branch's '}' is taken for the union's). R3: every unreadByte() is dominated by a successful byte read whose error was tested; in Next() a reader failure in findFirst returns before unreadByte(). R4: the explicit panic of decodeIntegerType is fenced: its case constants cover every key of uintTypes and intTypes, the only names readEnum lets through. R5: no inner node of the token tree built by newTokenTree has a successor set whose first sorted label is the synthetic \"number\" (the recovery path indexes successors by that label's first byte). R6: every tokenizer function that reads the underlying reader records a failing read as an error and adds the end-of-input sentinel only for io.EOF. R7: a block comment token is long enough for readBlockComment's slice. R8: every index into a slice or string (and every slice-to-array conversion) in parse.go, parse_expr.go, eval_expr.go, tokenize.go and token_tree.go is proven in bounds by one of the enumerated idioms — a dominating `if len(x)… {return}`, an enclosing if/for condition, the arity of the expectNext call that produced the slice (expectNext's own contract is checked), a range over a same-length make, a counting fill, or, for a parameter, the same proof at every call site; token counts and token text are input-controlled, so an unproven index is an input that panics. R9: every non-range loop of the parser and tokenizer takes at least one token or byte from the input on balance on its cheapest cycle (consuming calls minus UnNext/unread calls, Bellman-Ford over the loop's sub-graph of the go/cfg graph, callee summaries over successful returns), or advances a counter its condition bounds; with a finite input and a reader that eventually reports EOF this bounds the iterations. R10: the tokenizer's one-token push-back flag (keepNextToken) is written only by the tokenizer itself and at one confirmed parser site (frozen table with reasons): clearing it elsewhere throws away a token a callee pushed back and the definition it starts is skipped silently. NOT decided: termination as such (a reader that never ends, recursion depth); slice expressions x[a:b] other than those of R7; nil-map and nil-pointer panics.")
 	p := loadRepo(c)
 	if p == nil {
 		return
